@@ -345,7 +345,7 @@ def check_amplitude_stored(ctx: Check, tree: Tree) -> None:
     ctx.verdict(ok, "R-FOLD", f"{tam.qual}::amplitude-stored", tree.loc(tam.node), "the coherent sum that is returned is also stored unconditionally as model.amplitudes[create_amplitude_symbol(...)]")
 
 
-def check_products(ctx: Check, tree: Tree) -> None:
+def check_products(ctx: Check, tree: Tree, symmetrisation: bool = True) -> None:
     """coefficient x product(nodes) x prefactor; |coherent sum|^2 ; D x dynamics (x CG)."""
     seq = tree.func(f"{BUILDER}.__formulate_sequential_decay")
     rd = RD(seq.node)
@@ -394,10 +394,52 @@ def check_products(ctx: Check, tree: Tree) -> None:
     ok = len(red) == 1 and unparse(red[0].args[0]) in {"operator.mul", "mul"}
     ctx.verdict(ok, "R-FOLD", f"{seq.qual}::reduce-mul", tree.loc(seq.node), "the per-node factors are combined with operator.mul")
     check_amplitude_stored(ctx, tree)
-    cstores = [n for n in walk_function(seq.node) if isinstance(n, ast.Assign) and isinstance(n.targets[0], ast.Subscript) and unparse(n.targets[0].value).endswith(".components")]
-    ok = (len(cstores) == 1 and isinstance(cstores[0].value, ast.Name) and not any(isinstance(a, (ast.If, ast.For)) for a in ancestors(cstores[0]) if a is not seq.node)
-          and all(isinstance(r_.value, ast.Name) and rd.reaching(cstores[0].value) == rd.reaching(r_.value) for r_ in rets))
+    def is_components(e) -> bool:
+        if unparse(e).endswith(".components"):
+            return True
+        if isinstance(e, ast.Name):  # a local alias of the mapping
+            defs = list(rd.reaching(e))
+            return bool(defs) and all(d.value is not None and d.index is None and unparse(d.value).endswith(".components") for d in defs)
+        return False
+
+    cstores = [n for n in walk_function(seq.node) if isinstance(n, ast.Assign) and isinstance(n.targets[0], ast.Subscript) and is_components(n.targets[0].value)]
+    # what is stored: `C[k] = expr` (overwrite) or `C[k] = C.get(k, 0) + expr` / `C[k] += expr` after a default (accumulate)
+    stored_name, accumulates = None, False
+    aug = [n for n in walk_function(seq.node) if isinstance(n, ast.AugAssign) and isinstance(n.op, ast.Add) and isinstance(n.target, ast.Subscript) and is_components(n.target.value)]
+    store_node = cstores[0] if len(cstores) == 1 else None
+    if store_node is not None:
+        v = store_node.value
+        if isinstance(v, ast.Name):
+            stored_name = v
+        elif isinstance(v, ast.BinOp) and isinstance(v.op, ast.Add):
+            mapping_txt, key_txt = unparse(store_node.targets[0].value), unparse(store_node.targets[0].slice)
+            for prev, new_ in ((v.left, v.right), (v.right, v.left)):
+                is_prev = (isinstance(prev, ast.Call) and isinstance(prev.func, ast.Attribute) and prev.func.attr == "get" and unparse(prev.func.value) == mapping_txt
+                           and len(prev.args) == 2 and unparse(prev.args[0]) == key_txt and unparse(prev.args[1]) in {"0", "sp.S.Zero", "S.Zero", "sp.Integer(0)"})
+                if is_prev and isinstance(new_, ast.Name):
+                    stored_name, accumulates = new_, True
+    elif not cstores and len(aug) == 1 and isinstance(aug[0].value, ast.Name):
+        store_node, stored_name, accumulates = aug[0], aug[0].value, True
+    ok = (store_node is not None and stored_name is not None and not any(isinstance(a, (ast.If, ast.For)) for a in ancestors(store_node) if a is not seq.node)
+          and all(isinstance(r_.value, ast.Name) and rd.reaching(stored_name) == rd.reaching(r_.value) for r_ in rets))
     ctx.verdict(ok, "R-FOLD", f"{seq.qual}::component-stored", tree.loc(seq.node), "every chain amplitude that is returned is stored unconditionally as component A_{...} (the complete expression incl. prefactor)")
+    # the store runs once per graph of the identical-particle symmetrisation, and the key is a LABEL of the
+    # chain (particle names and projections): the permuted graphs of one transition have equal labels by
+    # construction (qrules permutes final states of equal name).  A plain assignment keeps the last
+    # permutation only; the component of a chain must hold the chain and its symmetrisation partners.
+    if symmetrisation and store_node is not None and stored_name is not None:
+        key = store_node.targets[0].slice if isinstance(store_node, ast.Assign) else store_node.target.slice
+        label_only = "generate_amplitude_name" in _def_calls(tree, seq, rd, key) or any(
+            "generate_amplitude_name" in unparse(d.value) for d in rd.closure(rd.uses(key)) if d.value is not None)
+        graph = tree.call_graph()
+        topo = f"{BUILDER}.__formulate_topology_amplitude"
+        per_graph = seq.qual in tree.reachable(topo, graph) and any(
+            isinstance(c, ast.Call) and unparse(c.func).endswith("_perform_combinatorics") for c in walk_function(tree.func(topo).node))
+        ok_acc = accumulates or not (label_only and per_graph)
+        ctx.verdict(ok_acc, "R-FOLD", f"{seq.qual}::component-accumulates-over-symmetrisation", tree.loc(store_node),
+                    "the A_{...} component of a chain holds the chain AND its identical-particle permutations (equal labels): the store accumulates",
+                    None if ok_acc else f"`{unparse(store_node)[:80]}` overwrites: of the graphs returned by _perform_combinatorics only the last one is kept under the shared name, "
+                                        "so the components no longer add up to the amplitudes")
     top = tree.func(f"{BUILDER}.__formulate_top_expression")
     trd = RD(top.node)
     ps = [n for n in walk_function(top.node) if isinstance(n, ast.Call) and unparse(n.func) == "PoolSum"]
